@@ -15,6 +15,12 @@ W: a table of cells = rule x syntactic context x tool.  Every mutant is ill-form
    table): for the rule/context pairs that are rejected in a single file (IMPORT_PAIRS) the same sites are also
    placed in a main program that imports an ordinary module / a module declaring extern fns / a wrapper module with
    an `unsafe module` import, and inside an imported module (main well-formed); context = `<context>+<import ctx>`.
+   PLACES beyond plain function bodies (only rules that are rejected in the plain counterpart are put there): bodies of
+   nested functions / closures (NanoISA tools only: base b9), match arms, global initialisers, shadow bodies, slots of
+   function type (`let-fnvalue`, `arg-fnvalue@let`, `return-fnvalue`).  BINDING matrix: rule `set-immutable-binding`,
+   context `<kind>:<type class>` = assignment to every kind of immutable binding (param, let, global, loop-variable,
+   match-binding, closure-param, closure-let, closure-capture) x type class of the binding (int string bool float arr
+   struct P, union Sh, enum Color, tup, fn), so that a rule that stops applying to ONE class of symbols is its own cell.
    Known findings are individual cells: key `cell|<rule>|<context>|<tool>|<outcome class>`.
 
 Outcome classes per run:  rejected | rejected-late-by-cc (nanoc: no diagnostic of its own, the C compiler's
